@@ -75,7 +75,8 @@ class C12(RS.StepProp):
                  11: 'a fragment library passed in was modified',
                  12: 'different graphs under different PYTHONHASHSEED values',
                  13: 'permuting the definitions inside a fragment block changed the result',
-                 14: 'the three constructors disagree'}
+                 14: 'the three constructors disagree (whole string / base graph + fragment string / base string + fragment graphs / '
+                     'two calls: the molecule of the first levels handed to from_graph with the remaining blocks)'}
 
     def __init__(self):
         super().__init__()
@@ -101,6 +102,10 @@ class C12(RS.StepProp):
         out.append({'kind': 'step', 's': '{[#A][#B]}.{#A=[$][#X][#Y],#B=[$][#P]=[#Q]}', 'laa': False, 'legacy': True, 'level': 0, 'rekey': True})
         for exp in EXPS:
             out.append({'kind': 'det', 'exp': exp, 'base': base, 'blocks': blocks, 'laa': True, 'legacy': True, 'hseed': 1})
+        # two-call route (seed C12-7): block copolymer with names of its own per level / names used again on the next level
+        for b2, bl2 in [('{[#B1][#B2][#B1]}', [['#B1=[<][#PEO][#PEO][>]', '#B2=[<][#PE][#PE][>]'], ['#PEO=[>]COC[<]', '#PE=[>]CC[<]']]),
+                        ('{[#A][#B]}', [['#A=[#B][#A][>]', '#B=[<][#A][#B]'], ['#A=[$]CO[$]', '#B=[$]CC[$]']])]:
+            out.append({'kind': 'det', 'exp': 'ctors', 'base': b2, 'blocks': bl2, 'laa': True, 'legacy': True, 'hseed': 1})
         for s in ['{a}{b}', '{}{x}', '{{a}}', 'a{b', '{a}.{#A=[$]C}', '}{', '{a\n}']:
             out.append({'kind': 'blocks', 's': s})
         return out
@@ -132,6 +137,8 @@ class C12(RS.StepProp):
             base, blocks = RS.rand_multilevel(rng, levels, laa, squash=rng.random() < 0.2)
             if rng.random() < 0.2:
                 base = RS.add_virtual_tail(rng, base)
+            if levels > 1 and rng.random() < 0.4:
+                blocks = RS.reuse_names(blocks)      # the bead names of every level are A, B, C, ... again
             d = {'kind': 'det', 'base': base, 'blocks': blocks, 'laa': laa, 'legacy': rng.random() < 0.6,
                  'hseed': rng.randint(0, 10 ** 6)}
             dets.append(d)
@@ -278,7 +285,20 @@ class C12(RS.StepProp):
             a = RS.dump_iter(MoleculeResolver.from_fragment_dicts(elements[0], dicts, last_all_atom=laa, legacy=legacy))
             b = RS.dump_iter(MoleculeResolver.from_graph(''.join(elements[1:]), read_cgsmiles(elements[0]),
                                                          last_all_atom=laa, legacy=legacy))
-            return {'ok': a == ref and b == ref, 'dicts': a == ref, 'graph': b == ref}
+            # the TWO-CALL route: the first k levels are resolved by one resolver (last_all_atom=False), the molecule it
+            # returns is the base graph of from_graph with the remaining fragment blocks; levels k+1.. must be those of
+            # from_string on the whole text
+            two = []
+            for k in range(1, len(elements) - 1):
+                try:
+                    _, middle = MoleculeResolver.from_string(''.join(e + '.' for e in elements[:k + 1])[:-1],
+                                                             last_all_atom=False, legacy=legacy).resolve_all()
+                    got = RS.dump_iter(MoleculeResolver.from_graph(''.join(elements[k + 1:]), middle,
+                                                                   last_all_atom=laa, legacy=legacy))
+                except Exception as exc:      # noqa: BLE001
+                    got = ['CTOR:' + type(exc).__name__]
+                two.append(got == ref[k:])
+            return {'ok': a == ref and b == ref and all(two), 'dicts': a == ref, 'graph': b == ref, 'two_call': two}
         raise ValueError(exp)
 
     # ------------------------------------------------------------------------------------------ flow
